@@ -256,6 +256,10 @@ func c10Semantics(c *fw.Ctx, nodes []*mnode) {
 	if hasSection {
 		c.Nontrivial()
 	}
+	// the object's default variables get non-empty values: they must only matter for Evaluate()
+	for k := range t.DefaultVariables() {
+		t.DefaultVariables()[k] = "<default " + k + ">"
+	}
 	for _, m := range mMaps() {
 		var want strings.Builder
 		mRender(nodes, m, &want)
